@@ -74,7 +74,10 @@ func c17StayPutExact(c *engine.Ctx) {
 			if !inner || !gt.OnTrue {
 				continue
 			}
+			full := gt.Full()
 			switch {
+			case engine.MentionsName(full, "Cmp") && isZeroLit(gt.Cond) && gt.Tag != nil:
+				kind = "used==target"
 			case engine.MentionsName(gt.Cond, "Amount") && engine.Mentions(info, gt.Cond, last):
 				kind = "price==0"
 			case engine.MentionsName(gt.Cond, "TargetGasRatio"):
@@ -82,7 +85,7 @@ func c17StayPutExact(c *engine.Ctx) {
 			case engine.MentionsName(gt.Cond, "Cmp"):
 				kind = "used==target"
 			default:
-				kind = "OTHER: " + engine.ExprString(gt.Cond)
+				kind = "OTHER: " + engine.ExprString(full)
 			}
 		}
 		ok2 := kind == "price==0" || kind == "ratio==0" || kind == "used==target"
@@ -90,4 +93,9 @@ func c17StayPutExact(c *engine.Ctx) {
 			"the last price is returned unchanged under a condition other than the three stay-put cases (price 0, ratio 0, used == target): when the block used more or less gas than the target the price must move by at least one unit")
 	})
 	c.Floor("stay-put-exact", n, 3)
+}
+
+func isZeroLit(e ast.Expr) bool {
+	b, ok := ast.Unparen(e).(*ast.BasicLit)
+	return ok && b.Value == "0"
 }
